@@ -369,6 +369,59 @@ func c11(r *engine.Report, p *engine.Program) {
 		mustDisconnect("a reject message", rejE)
 	}
 
+	// R3 cost selection: the per-node override looked up under the announced ID, else the backend default
+	{
+		nodeCost := p.Field("netceptor", "BackendInfo", "nodeCost")
+		costF := p.Field("netceptor", "connInfo", "Cost")
+		var lk *ssa.Lookup
+		for _, b := range rp.Blocks {
+			for _, in := range b.Instrs {
+				if l, ok := in.(*ssa.Lookup); ok && l.CommaOk {
+					if f, _ := engine.FieldOfLoad(l.X); f == nodeCost && nodeCost != nil {
+						lk = l
+					}
+				}
+			}
+		}
+		ok, why := lk != nil, "no comma-ok lookup of bi.nodeCost found"
+		if ok && !isKey(lk.Index) {
+			ok, why = false, "the per-node cost is not looked up under the announced node ID"
+		}
+		if ok {
+			isVal := func(v ssa.Value) bool {
+				e, isE := engine.Unwrap(v).(*ssa.Extract)
+				return isE && e.Tuple == ssa.Value(lk) && e.Index == 0
+			}
+			hit, _ := engine.CondEdges(rp, func(c ssa.Value) (bool, bool) {
+				e, isE := c.(*ssa.Extract)
+				return isE && e.Tuple == ssa.Value(lk) && e.Index == 1, true
+			})
+			// every store to ci.Cost after the literal is the looked-up value, on the hit edge only
+			n := 0
+			for _, a := range engine.FieldAccessesIn(rp, costF) {
+				st, isS := a.Instr.(*ssa.Store)
+				if !isS || a.Kind != engine.AccStore {
+					continue
+				}
+				if isVal(st.Val) {
+					n++
+					cut := engine.EdgeSet{}.Add(hit...)
+					if len(hit) == 0 || engine.Reach(rp, lk, cut, nil, func(in ssa.Instruction) bool { return in == ssa.Instruction(st) }) != nil {
+						ok, why = false, "the override is applied without the lookup having hit"
+					}
+				}
+			}
+			if ok && n == 0 {
+				ok, why = false, "the looked-up per-node cost is never installed as the connection's cost"
+			}
+			// and the insertion comes after the override decision (the table never shows the default for an overridden peer)
+			if ok && !lk.Block().Dominates(ins.Block()) {
+				ok, why = false, "the connection can be inserted without the per-node cost having been looked up"
+			}
+		}
+		r.Check("R3-cost-selection", "runProtocol: connection cost = nodeCost[announced ID] when configured, else the backend's cost", rp.Pos(), ok,
+			"bi.nodeCost is looked up under the announced ID before the insertion; on the hit edge (only) the value becomes the connection's Cost", why+": the link is advertised and agreed with a cost the operator did not configure for this peer")
+	}
 	// R7 duplicate node: Shutdown only under SuspectedDuplicate == s.epoch
 	sd := p.Field("netceptor", "routingUpdate", "SuspectedDuplicate")
 	ep := p.Field("netceptor", "Netceptor", "epoch")
